@@ -228,7 +228,7 @@ def check(run):
             if any(s.status or any(isinstance(o, dict) and "r" in o for o in s.obs) for s in subs):
                 run.discard("sticky: operand raises on its own"); continue
         reported[0] += 1
-        if reported[0] > 40:
+        if reported[0] > 6:
             continue
         bad = lambda s: judge_sticky(s.obs) is not None and not revives_by_design(s.expr)
         small = culprit_of(c, bad)
@@ -268,7 +268,7 @@ def check(run):
         if dev is None:
             continue
         reported[0] += 1
-        if reported[0] > 40:
+        if reported[0] > 6:
             continue
         kind = "copy" if any(o[0] == "copy" for o in c.ops[:dev["op"] + 1]) and dev["opname"] == "next" else "helper"
         run.violation({"kind": kind, "op": dev["opname"], "class": root_cls(c.expr)}, {
@@ -288,7 +288,7 @@ def check(run):
             run.cov["traces_validated_against_impl"] += 1
     bad = [c for c in allc if c.verdict == "disagree"]
     seen = set()
-    for c in bad[:3]:
+    for c in bad[:2]:
         small = shrink(run, c, rounds=4)
         sig = {"kind": "correspondence", "class": root_cls(small.expr)}
         if json.dumps(sig) in seen:
